@@ -68,16 +68,23 @@ def psd_pairs_from_den(world, dens):
 
 
 def pairs_close(a, b, tol=EPS_EXACT):
+    """Two LMIs are the same constraint iff, for every unordered position {i, j}, the *sets* of functionals the
+    matrix entry is tied to are equal (an entry tied twice to the same functional is tied once)."""
     if set(a) != set(b):
         return False
+
+    def dedupe(sigs):
+        out = []
+        for x in sigs:
+            if not any(sig_close(x, y, tol) for y in out):
+                out.append(x)
+        return out
     for k in a:
-        if len(a[k]) != len(b[k]):
+        sa, sb = dedupe(a[k]), dedupe(b[k])
+        if len(sa) != len(sb):
             return False
-        for x, y in zip(a[k], b[k]):
-            if not sig_close(x, y, tol):
-                # sorted order may differ by rounding; try the swapped pairing
-                if len(a[k]) == 2 and sig_close(a[k][0], b[k][1], tol) and sig_close(a[k][1], b[k][0], tol):
-                    break
+        for x in sa:
+            if not any(sig_close(x, y, tol) for y in sb):
                 return False
     return True
 
@@ -463,6 +470,30 @@ def check_attr_dual(world, rec):
         if err > EPS_EXACT:
             world.violation("O-ATTR", "lmi-dual-mismatch:" + it["source"],
                             {"label": it["label"], "transport": cap.transport, "err": err})
+    # multipliers of the entries of an LMI (when exposed): each is the number the peer returned for the link of an
+    # entry carrying that expression; their symmetric part is the LMI multiplier
+    for it in ctx.exp_psd:
+        ent = getattr(it["obj"], "entries_dual_variable_value", None)
+        if "lmi" not in it or ent is None:
+            continue
+        ent = np.asarray(ent, dtype=float)
+        l = cap.lmis[it["lmi"]]
+        d = it["dim"]
+        if ent.shape != (d, d):
+            world.violation("O-ATTR", "lmi-entries-dual-shape:" + it["source"], {"label": it["label"]})
+            continue
+        okent = True
+        for i in range(d):
+            for j in range(d):
+                sig = seam.expression_sig(it["obj"][i, j])
+                cands = [ans.link_dual.get((id(l), pos)) for (pos, key) in l["links"]
+                         if key == (min(i, j), max(i, j)) and sig_close(l["link_sigs"][pos], sig)]
+                cands = [c for c in cands if c is not None]
+                if cands and not any(abs(ent[i, j] - c) <= EPS_EXACT * (1 + abs(c)) for c in cands):
+                    okent = False
+        if not okent:
+            world.violation("O-ATTR", "lmi-entry-dual-mismatch:" + it["source"], {"label": it["label"],
+                                                                                 "transport": cap.transport})
     R = getattr(rec.pep, "residual", None)
     if R is None:
         world.violation("O-ATTR", "residual-missing", {})
@@ -694,6 +725,20 @@ def check_handles(world, rec):
 # --------------------------------------------------------------------------------------------------
 # O-CERT
 # --------------------------------------------------------------------------------------------------
+def lmi_term(entry, comp):
+    """Contribution of one LMI to the identity at component `comp` of the signatures: with the multipliers of
+    the entries when the library exposes them (sum_ij mu_ij e_ij, entries as written), else <D, E>."""
+    Md, l, ent, obj = entry
+    if ent is not None and ent.shape == Md.shape:
+        v = 0.0
+        d = Md.shape[0]
+        for i in range(d):
+            for j in range(d):
+                v += ent[i, j] * seam.expression_sig(obj[i, j])[comp]
+        return v
+    return lmi_inner(Md, l["pairs"], comp)
+
+
 def lmi_inner(Mdual, pairs, comp):
     """<Mdual, L> where L's entries have signatures `pairs` (as written, both orientations summed)."""
     v = 0.0
@@ -732,17 +777,19 @@ def check_cert(world, rec):
         if isinstance(d, Exception):
             world.violation("O-CERT", "dual-accessor-raises:" + it["source"], {"label": it["label"]})
             return
-        Ms.append((np.asarray(d, dtype=float), cap.lmis[it["lmi"]]))
+        ent = getattr(it["obj"], "entries_dual_variable_value", None)
+        Ms.append((np.asarray(d, dtype=float), cap.lmis[it["lmi"]],
+                   None if ent is None else np.asarray(ent, dtype=float), it["obj"]))
     if ctx.extra_lmis or ctx.missing_lmi:
         return
     R = np.asarray(rec.pep.residual, dtype=float)
     nG = cap.nG
     scale = 1.0 + sum(abs(l) * (abs(r["sig"][0]) + max(abs(x) for x in r["sig"][1:])) for l, r in zip(lam, rows))
     scale += float(np.sum(np.abs(R)))
-    for Md, l in Ms:
+    for Md, l, ent, obj in Ms:
         scale += float(np.sum(np.abs(Md)))
     # constant of the identity:  0 - tau = sum lam_i c_i - sum <M_k, C_k>
-    const = sum(l * r["sig"][0] for l, r in zip(lam, rows)) - sum(lmi_inner(Md, l["pairs"], 0) for Md, l in Ms)
+    const = sum(l * r["sig"][0] for l, r in zip(lam, rows)) - sum(lmi_term(e_, 0) for e_ in Ms)
     tau_id = -const
     if mode == "dual" and rec.result is not None:
         err = abs(float(rec.result) - tau_id) / scale
@@ -762,7 +809,7 @@ def check_cert(world, rec):
         Gk = seam.probe_G(k - 1, nG)
         v = cap.obj_sig[k] - (sum(l * r["sig"][k] for l, r in zip(lam, rows))
                               - float(np.sum(R * Gk))
-                              - sum(lmi_inner(Md, l["pairs"], k) for Md, l in Ms))
+                              - sum(lmi_term(e_, k) for e_ in Ms))
         rem.append(v)
     err = max(abs(x) for x in rem) / scale
     explained = False
@@ -771,10 +818,7 @@ def check_cert(world, rec):
         # implied symmetry e_ij = e_ji of LMIs whose entries are not symmetric as written
         corr = [0.0] * K
         any_asym = False
-        for Md, l in Ms:
-            duals = {}
-            for (pos, key) in l["links"]:
-                duals.setdefault(key, []).append(ans.link_dual.get((id(l), pos)))
+        for Md, l, ent, obj in Ms:
             for key, sigs in l["pairs"].items():
                 if len(sigs) == 2 and not sig_close(sigs[0], sigs[1]):
                     any_asym = True
@@ -821,7 +865,7 @@ def check_cert(world, rec):
     ev = np.linalg.eigvalsh((R + R.T) / 2)
     if ev.min() < -tol:
         world.violation("O-CERT", "residual-not-psd", {"min_eig": float(ev.min())})
-    for Md, l in Ms:
+    for Md, l, ent, obj in Ms:
         ev = np.linalg.eigvalsh((Md + Md.T) / 2)
         if ev.min() < -tol:
             world.violation("O-CERT", "lmi-multiplier-not-psd", {"min_eig": float(ev.min())})
@@ -837,7 +881,7 @@ def _explained_by_asymmetric_links(cap, ans, Ms, rem, scale):
     """rem_k ?= s * sum_pairs (mu_a - mu_b)/2 * (e_a - e_b)_k  for s in {+1, -1}."""
     # we need the association link -> signature, recomputed from the capture (links and pairs are stored per LMI)
     total = [0.0] * K
-    for Md, l in Ms:
+    for Md, l, ent, obj in Ms:
         bykey = {}
         for (pos, key) in l["links"]:
             bykey.setdefault(key, []).append(pos)
